@@ -42,9 +42,53 @@ def rule_unbound(ctx: Ctx, rule: str, scopes: Iterable[Scope], what: str) -> Non
                         ctx.violation(rule, f'{f.qualname}: {norm(x.ast)[:60]} reads `{nm}`', g.loc(x),
                                       f'`{nm}` is not assigned on a feasible path to this read: UnboundLocalError at run time',
                                       witness=render(g, w), construct=construct_key(f.qualname, 'unbound read', nm))
+    # ... nor a global that nothing binds: `logging.exception(...)` after the import became `from logging import getLogger` is a
+    # NameError on the one path that reaches it (decided on the *original* source with the compiler's symbol tables)
+    import builtins
+    import symtable
+    for u in {sc.unit.rel: sc.unit for sc in scopes}.values():
+        try:
+            top = symtable.symtable(u.src, u.path, 'exec')
+        except SyntaxError:
+            continue
+        import ast as _ast
+        if any(isinstance(x, _ast.ImportFrom) and any(al.name == '*' for al in x.names) for x in _ast.walk(_ast.parse(u.src))):
+            continue
+        bound_top = {sy.get_name() for sy in top.get_symbols() if sy.is_assigned() or sy.is_imported() or sy.is_namespace()}
+
+        def walk(st, depth=0):
+            for ch in st.get_children():
+                if ch.get_type() == 'function':
+                    for sy in ch.get_symbols():
+                        nm = sy.get_name()
+                        if sy.is_referenced() and sy.is_global() and not sy.is_assigned() and nm not in bound_top and not hasattr(builtins, nm) \
+                                and nm not in ('__class__', '__file__', '__name__', '__doc__', '__package__', '__spec__', '__builtins__'):
+                            yield ch, nm
+                yield from walk(ch, depth + 1)
+        for ch, nm in walk(top):
+            # restrict to the anchored functions (and what is nested in them): matched by the line of the def
+            if not _inside(u, ch.get_lineno(), scopes):
+                continue
+            bad += 1
+            ctx.violation(rule, f'{u.rel}: function `{ch.get_name()}` (line {ch.get_lineno()}) reads the global `{nm}`', f'{u.rel}:{ch.get_lineno()}',
+                          f'nothing in the module binds `{nm}` (no assignment, import, def or class of that name) and it is not a builtin: '
+                          'NameError on the path that reaches the read', construct=construct_key(u.rel, 'undefined global', ch.get_name(), nm))
     if not bad:
         ctx.holds(rule, f'{len(seen)} function(s): every local is assigned on every feasible path to each of its reads '
                         f'({n_reads} candidate read(s) examined path-sensitively)', f'{next(iter(scopes)).unit.rel}:1', examined=max(1, n_reads))
+
+
+def _inside(u, lineno: int, scopes) -> bool:
+    """Is *lineno* (of the original source) within one of the anchored functions of unit *u*?  The loader keeps original line
+    numbers on the nodes it does not synthesise."""
+    for sc in scopes:
+        if sc.unit is not u:
+            continue
+        lo = getattr(sc.node, 'lineno', None)
+        hi = getattr(sc.node, 'end_lineno', None)
+        if lo is not None and hi is not None and lo <= lineno <= hi:
+            return True
+    return False
 
 
 def exception_escapes(g, edge, _seen=None) -> bool:
@@ -88,3 +132,24 @@ def exception_escapes(g, edge, _seen=None) -> bool:
             if e.label != 'exc':
                 stack.append(e.dst)
     return False
+
+
+def rule_func_attr_is_param(ctx: Ctx, rule: str, init: Scope, attr: str, what: str) -> None:
+    """The attribute through which the component calls the user's function holds the constructor's parameter itself - not an
+    adaptor built from it (an `_ensure_async(func)` that guesses from `iscoroutinefunction` misjudges callables that are
+    async by return value only; a caching / retrying / thread-offloading wrapper changes how often and where it runs)."""
+    import ast
+    from ..load import own_nodes
+    stores = [n for n in own_nodes(init.node) if isinstance(n, (ast.Assign, ast.AnnAssign)) and getattr(n, 'value', None) is not None
+              and any(isinstance(t, ast.Attribute) and isinstance(t.value, ast.Name) and t.value.id == 'self' and t.attr == attr
+                      for t in (n.targets if isinstance(n, ast.Assign) else [n.target]))]
+    params = set(init.params) - {'self'}
+    for n in stores:
+        ok = isinstance(n.value, ast.Name) and n.value.id in params
+        ctx.check(rule, f'{init.qualname}: self.{attr} = {norm(n.value)[:60]}', f'{init.unit.rel}:{n.lineno}', ok, f'the {what} as given',
+                  f'the {what} is wrapped or replaced before it is stored: what the component awaits is no longer the caller\'s function '
+                  '(an adaptor that classifies it by iscoroutinefunction / runs it elsewhere / memoises it changes whether and how often it runs)',
+                  construct=construct_key(init.qualname, 'function attribute wrapped', attr))
+    if not stores:
+        ctx.violation(rule, f'{init.qualname}: self.{attr} is never assigned in the constructor', f'{init.unit.rel}:{init.lineno}',
+                      construct=construct_key(init.qualname, 'function attribute missing', attr))
